@@ -28,12 +28,13 @@ def hex32(x: int) -> str:
 
 
 class Server:
-    def __init__(self, services="api"):
+    def __init__(self, services="api", env=None):
         os.makedirs(os.path.join(build.BUILD, "work"), exist_ok=True)
         self.wd = tempfile.mkdtemp(prefix="h", dir=os.path.join(build.BUILD, "work"))
         self.path = os.path.join(self.wd, "s")
         self.p = subprocess.Popen([build.XSV, "serve", self.path, services], stdin=subprocess.PIPE,
-                                  stdout=subprocess.PIPE, stderr=subprocess.PIPE, text=True, bufsize=1)
+                                  stdout=subprocess.PIPE, stderr=subprocess.PIPE, text=True, bufsize=1,
+                                  env=dict(os.environ, **(env or {})))
         line = self.p.stdout.readline()
         if "READY" not in line:
             raise RuntimeError("server did not start: " + line + self.p.stderr.read()[-500:])
